@@ -421,8 +421,8 @@ Proof. exact empty_topic_witness. Qed.
                   not part of [ktrace] (see Props/C08.v).
     [ktrace K tr] = the events of key K = (k, f, i) in order; [nxt]: where the request continues
     after an event (forward off -> off + 1, jump -> to, subscribe -> e); [kchain]: every event
-    starts where the previous one continues ([ok_next]; a [KRes] follows nothing; a jump right after
-    a [KRes] may go to either side); [covered x l]: offset [x] is forwarded in [l], or inside a
+    starts where the previous one continues ([ok_next]; a [KRes] follows nothing; every jump goes
+    forward, also right after a [KRes]: Router/TraceRunBound.v); [covered x l]: offset [x] is forwarded in [l], or inside a
     jump of [l], or below a subscribe marker of [l].
     Hypotheses of every theorem: valid configuration, max_outgoing_packet_count < 2^62, well-typed
     ops (SUBSCRIBE QoS <= 2), fewer than 2^62 entries per filter log in the LAST state; for
